@@ -9,6 +9,7 @@ from simkit.core import Run, HarnessError
 
 from playback.exceptions import TapeRecorderException
 from playback.tape_recorder import TapeRecorder
+from playback.tape_cassettes.in_memory.in_memory_tape_cassette import InMemoryTapeCassette
 
 from engines import recplay as R
 from engines import cassettes as C
@@ -89,7 +90,74 @@ class Main(object):
 
 def run_tape(tape):
     with seams.deterministic(tape) as clock:
+        if tape.draw(10) == 9:
+            return straggler_history(tape, clock)
         return _run(tape, clock)
+
+
+def straggler_history(tape, clock):
+    """History: an operation left a fire-and-forget worker thread behind that is still inside an interception when the
+    operation ends (it is pre-empted at a tape-chosen line point and continues only after the operation was finalised).
+    The next operation on the recorder is numbered, recorded and replayed as on a fresh recorder."""
+    import os
+    from simkit import REPO
+    from simkit.sim import Sim, SimDeadlock
+    run = Run(PROP)
+    run.probe('history_with_a_straggler_thread')
+    k = tape.draw(160)
+    kind = tape.choice(['out', 'out', 'in'])
+    sim = Sim(tape, run, preempt_p=0.0, prim_p=0.0, placements={k: 0}, eager_start=True,
+              target_files=[os.path.join(REPO, 'playback', 'tape_recorder.py')], max_steps=60000)
+    spy = R.SpyCassette(InMemoryTapeCassette(), run)
+    recorder = TapeRecorder(spy)
+
+    def make(name, body):
+        sp = R.ServiceSpec()
+        sp.op.name = name
+        sp.outputs = [R.OutputSpec(0)]
+        sp.outputs[0].handler = bool(handler)
+        i = R.InputSpec(0)
+        i.pool = [((1,), {}), ((2,), {})]
+        for (a, kw) in i.pool:
+            for dep in ('d0', 'd1'):
+                i.outcomes[(R.resolved_alias(i, dep), R.model_captured(i, a, kw))] = ('value', 'in-%s' % a[0])
+        sp.inputs = [i]
+        sp.body = body
+        return sp
+    handler = tape.draw(2)
+    late = [['out', 0, ((1,), {}), ('value', 2), None]] if kind == 'out' else [['in', 0, 0, 0, None]]
+    first = make('OpA', [['spawn', [late * (1 + tape.draw(2))], True]])
+    probe = make('OpB', [['out', 0, ((5,), {}), ('value', 6), None], ['in', 0, 1, 0, None], ['out', 0, ((7,), {}), ('value', 8), None]])
+    res = {}
+
+    def main():
+        a = R.record_once(first, run, spy, recorder=recorder, thread_factory=R.sim_thread_factory(sim))
+        for name, th, tobs, strag in a.svc.threads:
+            th.join()
+        res['idle'] = (recorder.in_recording_mode, recorder.in_playback_mode, recorder.current_recording_id, recorder.is_recording_sample_forced)
+        b = R.record_once(probe, run, spy, recorder=recorder)
+        res['probe'] = b
+    try:
+        sim.run_main(main)
+    except SimDeadlock as ex:
+        run.violate('idle_after_run', 'deadlock', str(ex))
+        return run
+    run.nontrivial = sim.switches > 1
+    run.check(res.get('idle') == (False, False, None, False), 'idle_after_run', 'not-idle-after-straggler', lambda: 'recorder state after the straggler finished: %s' % (res.get('idle'),))
+    b = res.get('probe')
+    fresh_spy = R.SpyCassette(InMemoryTapeCassette(), run)
+    f = R.record_once(probe, run, fresh_spy, recorder=TapeRecorder(fresh_spy))
+
+    def content(rec):
+        r = rec.spy.created.get(rec.rec_id)
+        return sorted((kk, V.canon(r.get_data(kk))) for kk in r.get_all_keys()) if r is not None else None
+    got, exp = content(b), content(f)
+    run.say('straggler %s pre-empted at line point %d; probe recorded keys %s' % (kind, k, [x[0] for x in (got or [])]))
+    run.ev('straggler', kind, k, handler, [x[0] for x in (got or [])], b.saved, sim.switches)
+    run.check(b.saved == f.saved and got == exp, 'probe_equals_fresh_recorder', 'op-content-after-straggler',
+              lambda: 'after an operation that left a worker thread inside an interception, the next operation recorded %s; a fresh recorder records %s' % (
+                  [x[0] for x in (got or [])], [x[0] for x in (exp or [])]))
+    return run
 
 
 def small_spec(tape, run, steps=5):
